@@ -251,6 +251,35 @@ RunResult run(J const &plan) {
   long compared = 0, full = 0;
   std::set<std::string> ext_names; for (auto const &op : plan.at("ops").a) if (op.at("op").as_str() == "addcv" && op.at("config").as_str().find("extendedLagrangian on") != std::string::npos) ext_names.insert(op.at("name").as_str());
   std::set<std::string> tainted;   // variables that slept at some point: their later history (fictitious coordinate) legitimately differs
+  // hideJacobian is a switch of the VARIABLE: while an ABF bias that sets it is alive, every other ABF bias on that variable accumulates
+  // total forces without the Jacobian term.  A survivor that shared a variable with such a bias has a legitimately different history.
+  std::set<std::string> hj_coupled;
+  {
+    J const &ops = plan.at("ops");
+    for (size_t i = 0; i < ops.size(); i++) {
+      if (ops.a[i].at("op").as_str() != "addbias" || !skip[i] || (i < test.rejected.size() && test.rejected[i])) continue;
+      std::string cfg = ops.a[i].at("config").as_str();
+      if (cfg.find("hideJacobian on") == std::string::npos) continue;
+      for (size_t j = 0; j < ops.size(); j++) {
+        if (j == i || ops.a[j].at("op").as_str() != "addbias" || skip[j]) continue;
+        if (ops.a[j].at("config").as_str().find("abf {") == std::string::npos) continue;
+        bool shares = false;
+        for (auto const &a : ops.a[i].at("cvs").a) for (auto const &b : ops.a[j].at("cvs").a) if (a.as_str() == b.as_str()) shares = true;
+        if (!shares) continue;
+        // ... and only if both were alive during at least one step: find the op that ends bias i's life, then a run between the later definition and it
+        size_t end = ops.size(); std::string ni = ops.a[i].at("name").as_str();
+        for (size_t q = i + 1; q < ops.size(); q++) {
+          std::string kq = ops.a[q].at("op").as_str(), nq = ops.a[q].at("name").as_str();
+          bool cv_hit = false; if (kq == "delcv") for (auto const &a : ops.a[i].at("cvs").a) if (a.as_str() == nq) cv_hit = true;
+          if ((kq == "delbias" && nq == ni) || cv_hit || kq == "reset") { end = q; break; }
+        }
+        bool stepped = false;
+        for (size_t q = std::max(i, j) + 1; q < end; q++) if (ops.a[q].at("op").as_str() == "run" && ops.a[q].at("n").as_int(0) > 0) stepped = true;
+        if (stepped) hj_coupled.insert(ops.a[j].at("name").as_str());
+      }
+    }
+    if (!hj_coupled.empty()) res.counters["probe.survivors_coupled_through_hidden_jacobian"]++;
+  }
   std::string feature_diff, feature_sig;
   std::string sleeping;   // first occurrence of the variable-goes-to-sleep finding; the comparison goes on without that variable
   for (size_t i = 0; i < test.snaps.size() && !res.violation; i++) {
@@ -312,13 +341,15 @@ RunResult run(J const &plan) {
     for (auto const &kv : b.be) {
       auto it = a.be.find(kv.first);
       if (it == a.be.end()) { res.fail("twin", "survivor_missing", at + ": bias " + kv.first + " exists in the twin but not in the run with deletions"); break; }
+      if (hj_coupled.count(kv.first)) continue;
       if (!same_num(it->second, kv.second)) { res.fail("twin", "bias_energy", at + ": bias " + kv.first + " energy " + fmt_double(it->second) + ", twin " + fmt_double(kv.second)); break; }
     }
     if (res.violation) break;
     bool any_sleeping = false;
     for (auto const &kv : b.cv_active) if (kv.second && a.cv_active.count(kv.first) && !a.cv_active.at(kv.first)) any_sleeping = true;
     // (a sleeping variable applies no force either: totals are only compared on steps where none sleeps)
-    bool same_sets = a.cv.size() == b.cv.size() && a.be.size() == b.be.size() && !any_sleeping && !twin_sleeps && tainted.empty();
+    bool coupled_alive = false; for (auto const &kv : b.be) if (hj_coupled.count(kv.first)) coupled_alive = true;
+    bool same_sets = a.cv.size() == b.cv.size() && a.be.size() == b.be.size() && !any_sleeping && !twin_sleeps && tainted.empty() && !coupled_alive;
     if (same_sets) {
       full++;
       if (!same_vec(a.fapp, b.fapp)) {
